@@ -53,7 +53,63 @@ func keyIndex(s string) int {
 
 // ---- Map (string keys, interface{} values) ----
 
-type mapAdapter struct{ m *xsync.Map }
+type mapAdapter struct {
+	m     *xsync.Map
+	box   func(int) interface{}
+	unbox func(interface{}) int
+}
+
+func (a mapAdapter) bx(v int) interface{} {
+	if a.box != nil {
+		return a.box(v)
+	}
+	return boxV(v)
+}
+
+func (a mapAdapter) ub(x interface{}) int {
+	if a.unbox != nil {
+		return a.unbox(x)
+	}
+	return unboxV(x)
+}
+
+// payload is what the race check stores: memory initialised with plain writes just before the
+// call and read with plain reads after it was obtained from the container ("publishes values safely").
+type payload struct{ a, b int }
+
+func newPayload(v int) *payload {
+	if v == 0 {
+		return nil
+	}
+	p := &payload{}
+	p.a = v
+	p.b = 2*v + 1
+	return p
+}
+
+func readPayload(p *payload) int {
+	if p == nil {
+		return 0
+	}
+	if p.b != 2*p.a+1 {
+		panic("payload read half-initialised")
+	}
+	return p.a
+}
+
+func boxP(v int) interface{} {
+	if v == 0 {
+		return nil
+	}
+	return newPayload(v)
+}
+
+func unboxP(x interface{}) int {
+	if x == nil {
+		return 0
+	}
+	return readPayload(x.(*payload))
+}
 
 func boxV(v int) interface{} {
 	if v == 0 {
@@ -71,35 +127,35 @@ func unboxV(x interface{}) int {
 
 func (a mapAdapter) Load(k int) (int, bool) {
 	v, ok := a.m.Load(keyName(k))
-	return unboxV(v), ok
+	return a.ub(v), ok
 }
-func (a mapAdapter) Store(k, v int) { a.m.Store(keyName(k), boxV(v)) }
+func (a mapAdapter) Store(k, v int) { a.m.Store(keyName(k), a.bx(v)) }
 func (a mapAdapter) LoadOrStore(k, v int) (int, bool) {
-	r, ok := a.m.LoadOrStore(keyName(k), boxV(v))
-	return unboxV(r), ok
+	r, ok := a.m.LoadOrStore(keyName(k), a.bx(v))
+	return a.ub(r), ok
 }
 func (a mapAdapter) LoadAndStore(k, v int) (int, bool) {
-	r, ok := a.m.LoadAndStore(keyName(k), boxV(v))
-	return unboxV(r), ok
+	r, ok := a.m.LoadAndStore(keyName(k), a.bx(v))
+	return a.ub(r), ok
 }
 func (a mapAdapter) LoadOrCompute(k int, fn func() int) (int, bool) {
-	r, ok := a.m.LoadOrCompute(keyName(k), func() interface{} { return boxV(fn()) })
-	return unboxV(r), ok
+	r, ok := a.m.LoadOrCompute(keyName(k), func() interface{} { return a.bx(fn()) })
+	return a.ub(r), ok
 }
 func (a mapAdapter) Compute(k int, fn func(int, bool) (int, bool)) (int, bool) {
 	r, ok := a.m.Compute(keyName(k), func(o interface{}, l bool) (interface{}, bool) {
-		nv, del := fn(unboxV(o), l)
-		return boxV(nv), del
+		nv, del := fn(a.ub(o), l)
+		return a.bx(nv), del
 	})
-	return unboxV(r), ok
+	return a.ub(r), ok
 }
 func (a mapAdapter) LoadAndDelete(k int) (int, bool) {
 	r, ok := a.m.LoadAndDelete(keyName(k))
-	return unboxV(r), ok
+	return a.ub(r), ok
 }
 func (a mapAdapter) Delete(k int) { a.m.Delete(keyName(k)) }
 func (a mapAdapter) Range(fn func(k, v int) bool) {
-	a.m.Range(func(k string, v interface{}) bool { return fn(keyIndex(k), unboxV(v)) })
+	a.m.Range(func(k string, v interface{}) bool { return fn(keyIndex(k), a.ub(v)) })
 }
 func (a mapAdapter) Clear()                { a.m.Clear() }
 func (a mapAdapter) Size() int             { return a.m.Size() }
@@ -110,7 +166,23 @@ func (a mapAdapter) RootBuckets() int      { return a.m.VerifRootBuckets() }
 func newMapAdapter(l Layout, opts ...func(*xsync.MapConfig)) MapLike {
 	xsync.VerifSeed = func() uint64 { return 1 }
 	xsync.VerifHashString = func(s string, _ uint64) uint64 { return l.hashMap(keyIndex(s)) }
-	return mapAdapter{xsync.NewMap(opts...)}
+	return mapAdapter{m: xsync.NewMap(opts...)}
+}
+
+func newMapAdapterP(l Layout, opts ...func(*xsync.MapConfig)) MapLike {
+	xsync.VerifSeed = func() uint64 { return 1 }
+	xsync.VerifHashString = func(s string, _ uint64) uint64 { return l.hashMap(keyIndex(s)) }
+	return mapAdapter{m: xsync.NewMap(opts...), box: boxP, unbox: unboxP}
+}
+
+func newMapOfIntP(l Layout, opts ...func(*xsync.MapConfig)) MapLike {
+	xsync.VerifSeed = func() uint64 { return 1 }
+	h := func(k int, _ uint64) uint64 { return l.hashMapOf(k) }
+	return mapOfAdapter[int, *payload]{
+		m:   xsync.NewMapOfWithHasher[int, *payload](h, opts...),
+		toK: func(k int) int { return k }, fromK: func(k int) int { return k },
+		toV: newPayload, fromV: readPayload,
+	}
 }
 
 // ---- MapOf[K,V] ----
@@ -218,14 +290,16 @@ const (
 	CMapOfInt
 	CMapOfStr
 	CMapOfStruct
+	CMapP      // Map holding *payload values (race check)
+	CMapOfIntP // MapOf[int,*payload]
 )
 
-var containerNames = [...]string{"Map", "MapOf[int,int]", "MapOf[string,string]", "MapOf[struct,int]"}
+var containerNames = [...]string{"Map", "MapOf[int,int]", "MapOf[string,string]", "MapOf[struct,int]", "Map(*payload)", "MapOf[int,*payload]"}
 
 func (c ContainerKind) String() string { return containerNames[c] }
 
 func (c ContainerKind) slots() int {
-	if c == CMap {
+	if c == CMap || c == CMapP {
 		return 3
 	}
 	return 5
@@ -241,6 +315,10 @@ func newContainer(c ContainerKind, l Layout, opts ...func(*xsync.MapConfig)) Map
 		return newMapOfStrStr(l, opts...)
 	case CMapOfStruct:
 		return newMapOfStructInt(l, opts...)
+	case CMapP:
+		return newMapAdapterP(l, opts...)
+	case CMapOfIntP:
+		return newMapOfIntP(l, opts...)
 	}
 	panic("bad container")
 }
